@@ -795,6 +795,37 @@ func pubScenario(w *vfWorld, r *vfkit.R, focus string, idx int) {
 			break
 		}
 	}
+	// a channel none of whose full subscribers is entitled to an individual push: readers are still reached
+	// through the channel's broadcast address
+	if kind == "chn" && focus == "C02" {
+		grpRows, _, _ := sc.rows()
+		for _, a := range sc.actors {
+			row, ok := grpRows[a.actingUser().uid]
+			if a.chanSub || !ok || row.DeletedAt != nil {
+				continue
+			}
+			if m := row.ModeWant & row.ModeGiven; m.IsReader() && m.IsPresencer() {
+				f := sc.reqX(a, a.cs[0], "set", map[string]any{"topic": sc.nameFor(a), "sub": map[string]any{"mode": (row.ModeWant &^ types.ModePres).String()}})
+				sc.log("%s mutes the channel -> %s", a.role, codeStr(f))
+			}
+		}
+		w.e.vfQuiesce()
+		grpRows, _, _ = sc.rows()
+		nobody := true
+		for _, row := range grpRows {
+			if m := row.ModeWant & row.ModeGiven; row.DeletedAt == nil && m.IsReader() && m.IsPresencer() {
+				nobody = false
+			}
+		}
+		if nobody {
+			r.Hit("channel_only_push")
+			if !sc.owner.cs[0].attachState()[sc.canon] {
+				sc.owner.cs[0].sub(sc.canon, nil)
+				w.e.vfQuiesce()
+			}
+			sc.pubStep(sc.owner, sc.owner.cs[0], 103)
+		}
+	}
 	// me / fnd are never writable
 	if focus == "C03" && rng.Intn(2) == 0 {
 		a := sc.actors[0]
